@@ -186,7 +186,10 @@ class Client:
         """send `tag line CRLF`; literal chunks are sent after each continuation request.
         returns dict(tag, untagged, tagged, steps, answered, closed)"""
         tag = tag or self.new_tag()
-        self.reader.feed_data(tag + b' ' + line + b'\r\n')
+        try:
+            self.reader.feed_data(tag + b' ' + line + b'\r\n')
+        except AssertionError:
+            return dict(tag=tag, line=line, untagged=[], tagged=None, steps=0, answered=False, closed=True, all=[])
         lits = list(literals)
         all_resps = []
         steps_total = 0
@@ -201,7 +204,10 @@ class Client:
             if any(r.startswith(tag + b' ') for r in resps):
                 break
             if lits:
-                self.reader.feed_data(lits.pop(0))
+                try:
+                    self.reader.feed_data(lits.pop(0))
+                except AssertionError:      # the harness already signalled EOF on this connection
+                    break
             else:
                 break
         tagged = [r for r in all_resps if r.startswith(tag + b' ')]
